@@ -32,6 +32,8 @@ func init() {
 	register(&Scenario{Prop: "C10", Name: "encrypt-copy", Run: func(rc *RunCtx) { runEncrypt(rc, "C10") }})
 	register(&Scenario{Prop: "C10", Name: "encrypt-observer", Run: runEncryptObserver})
 	register(&Scenario{Prop: "C10", Name: "encrypt-shared-event", Race: true, RaceFilter: c10RaceFilter, Run: runEncryptShared})
+	// (the same scenario under C09: what the sinks behind a SHARED filter node receive while several traversals are inside it)
+	register(&Scenario{Prop: "C09", Name: "encrypt-shared-node", Run: runEncryptShared})
 	register(&Scenario{Prop: "C16", Name: "encrypt-keys", Run: func(rc *RunCtx) { runEncrypt(rc, "C16") }})
 	register(&Scenario{Prop: "C16", Name: "encrypt-rotate-conc", Run: runEncryptRotateConc})
 	register(&Scenario{Prop: "C16", Name: "encrypt-rotate-partial", Run: runEncryptRotatePartial})
@@ -1346,6 +1348,22 @@ func runEncrypt(rc *RunCtx, prop string) {
 	}
 	versions := []*keyVersion{kv}
 	cur := kv
+	type rotSnap struct {
+		p interface {
+			HmacSalt() []byte
+			HmacInfo() []byte
+		}
+		salt, info []byte
+	}
+	var rotPayloads []rotSnap
+	rc.Final = append(rc.Final, func() {
+		for i, r := range rotPayloads {
+			if !bytes.Equal(r.p.HmacSalt(), r.salt) || !bytes.Equal(r.p.HmacInfo(), r.info) {
+				rc.Failf(prop+".input-modified", "rotation-payload", "rotation payload #%d holds salt %q / info %q after the run, it was sent with %q / %q: the filter kept (and later wrote to) the payload's own slices", i+1, r.p.HmacSalt(), r.p.HmacInfo(), r.salt, r.info)
+				return
+			}
+		}
+	})
 	nEvents := 1 + tp.Choose(3, "nevents")
 	// C16: in some runs every event carries per-event key material under one and the same event id
 	recurring := prop == "C16" && tp.Choose(6, "recurring-event-id") == 0
@@ -1359,10 +1377,17 @@ func runEncrypt(rc *RunCtx, prop string) {
 		for i := 0; i < nEvents; i++ {
 			tp.Mark()
 			// C16: rotations between events
-			if prop == "C16" && tp.Choose(3, "rotate") == 0 {
+			if (prop == "C16" || (prop == "C10" && wrapperMode == "aead")) && tp.Choose(3, "rotate") == 0 {
 				nv := &keyVersion{n: len(versions) + 1}
 				nv.key = keyBytes(nv.n)
 				nv.w = newAead(nv.key, keyID(nv.n))
+				if tp.Choose(4, "rekey-in-place") == 0 {
+					// the wrapper OBJECT stays, its key changes (a pooled / re-keyed wrapper), and the filter is
+					// told by a rotation to that same object: what counts is the key the wrapper holds now
+					cur.w.SetAesGcmKeyBytes(nv.key)
+					nv.w = cur.w
+					simrt.Probe("encrypt.rekeyed-in-place")
+				}
 				nv.salt, nv.info = cur.salt, cur.info
 				if tp.Choose(2, "newsalt") == 0 {
 					nv.salt = keyMaterial(fmt.Sprintf("salt-%d", nv.n), saltLens[tp.Choose(len(saltLens), "saltlen")])
@@ -1371,10 +1396,22 @@ func runEncrypt(rc *RunCtx, prop string) {
 					nv.info = keyMaterial(fmt.Sprintf("info-%d", nv.n), saltLens[tp.Choose(len(saltLens), "infolen")])
 				}
 				if tp.Choose(2, "via-payload") == 0 {
-					var rp interface{} = &encRotate{w: nv.w, salt: nv.salt, info: nv.info}
-					if tp.Choose(2, "rotation-payload-with-event-id") == 0 {
-						rp = &encRotateInfo{encRotate{w: nv.w, salt: nv.salt, info: nv.info}, "rotation-event"}
+					// (the payload owns its key material: the filter may read it, not keep or change it)
+					base := encRotate{w: nv.w, salt: append([]byte(nil), nv.salt...), info: append([]byte(nil), nv.info...)}
+					if nv.salt == nil {
+						base.salt = nil
 					}
+					if nv.info == nil {
+						base.info = nil
+					}
+					var rp interface{} = &base
+					if tp.Choose(2, "rotation-payload-with-event-id") == 0 {
+						rp = &encRotateInfo{base, "rotation-event"}
+					}
+					rotPayloads = append(rotPayloads, rotSnap{rp.(interface {
+						HmacSalt() []byte
+						HmacInfo() []byte
+					}), append([]byte(nil), nv.salt...), append([]byte(nil), nv.info...)})
 					out, err := f.Process(ctx, &el.Event{Type: "rotate", Payload: rp})
 					if out != nil || err != nil {
 						rc.Failf("C16.rotation-payload", "", "a rotation payload must be consumed (nil, nil), got (%v, %v)", out, err)
@@ -1835,27 +1872,27 @@ func runEncryptShared(rc *RunCtx) {
 	rc.NonTrivial = len(g.exp) > 2
 	rc.Desc = map[string]interface{}{"payload": top, "leaves": len(g.exp), "pipelines": nPipes}
 	if sim.Stuck {
-		rc.Failf("C10.stuck", stuckClass(sim), "did not finish: %s", strings.Join(sim.StuckInfo, "; "))
+		rc.Failf(rc.Prop+".stuck", stuckClass(sim), "did not finish: %s", strings.Join(sim.StuckInfo, "; "))
 		return
 	}
 	if !same {
-		rc.Failf("C10.original-observed-modified", "payload="+top+",shared", "after %d encrypt filters of %d pipelines worked on one event the caller's payload differs from its snapshot", nPipes, nPipes)
+		rc.Failf(rc.Prop+".original-observed-modified", "payload="+top+",shared", "after %d encrypt filters of %d pipelines worked on one event the caller's payload differs from its snapshot", nPipes, nPipes)
 	}
 	if simrt.RaceBuild {
 		return
 	}
 	for i, k := range sinks {
 		if k.n != 1 || k.got[0] == nil {
-			rc.Failf("C10.shared-delivery", "", "sink of pipeline p%d received %d events", i, k.n)
+			rc.Failf(rc.Prop+".shared-delivery", "", "sink of pipeline p%d received %d events", i, k.n)
 			continue
 		}
 		for j := 0; j < i; j++ {
 			if sinks[j].n == 1 && sinks[j].got[0] == k.got[0] {
-				rc.Failf("C10.copy-not-private", "payload="+top, "the encrypt filters of pipelines p%d and p%d forwarded the very same event object: the copy is not private", j, i)
+				rc.Failf(rc.Prop+".copy-not-private", "payload="+top, "the encrypt filters of pipelines p%d and p%d forwarded the very same event object: the copy is not private", j, i)
 			}
 		}
 		if found := canaryScan(g.exp, k.got[0]); len(found) > 0 {
-			rc.Failf("C10.original-forwarded", "payload="+top, "the sink behind the encrypt filter of pipeline p%d received protected plaintext (the original instead of the filtered copy?): %v", i, found)
+			rc.Failf(rc.Prop+".original-forwarded", "payload="+top, "the sink behind the encrypt filter of pipeline p%d received protected plaintext (the original instead of the filtered copy?): %v", i, found)
 		}
 	}
 }
